@@ -420,7 +420,7 @@ def s2c_chunk(cases):
             calls = [dict(op='fillna', f=f, ms=case['ms'], lim=case['lim'], style=style, ix=ix, lab=case.get('par', {}).get('lab', ''),
                           want=case['want'], wantA=case.get('wantA') or [w['cols'] for w in case['want']])]
             for e, g in zip((0, 1, -1), case.get('nonafn', [])):
-                calls.append(dict(op='nona', f=f, edge=e, style=style, ix='date', want=[g], wantA=[]))
+                calls.append(dict(op='nona', f=f, edge=e, style=style, ix='date', want=[g], wantA=[g['cols']] if e == 0 else []))  # ArrayIgnoresEdge
         nt = False
         for c in calls:
             o = observe(c)
